@@ -122,7 +122,7 @@ func viewOf(sh *head.SignedHead) *view {
 	default:
 		if si, ok := sigTable[string(sh.Sig)]; ok {
 			v.sigTerm = fmt.Sprintf("(WSSig %d %s)", si.k, vlib.CoqBytes(si.msg))
-		} else if keyIdx >= 0 && keyIdx < len(pool.Ids) && verifies(v.key, layout(v.cid, sh.Topic), sh.Sig) {
+		} else if keyIdx >= 0 && verifies(v.key, layout(v.cid, sh.Topic), sh.Sig) {
 			// other bytes that the verifier takes for the pool key's signature over exactly
 			// what Validate checks (a second encoding of one signature)
 			v.sigTerm = fmt.Sprintf("(WSSig %d %s)", keyIdx, vlib.CoqBytes(layout(v.cid, sh.Topic)))
